@@ -38,7 +38,8 @@ OPS_BY_PROP = {
     "C18": {"must": ["restrict", "remove", "join", "split", "extrude",
                      "transform", "clean_unused", "clean_duplicate",
                      "restrict_map", "oriented", "join_mixed", "trace"],
-            "pool": ["restrict", "remove", "join", "split", "extrude",
+            "pool": ["restrict", "remove", "join", "join", "split", "extrude",
+                     "dirty_unused",
                      "transform", "transform", "clean_unused",
                      "clean_duplicate", "restrict_map", "oriented", "tag_s",
                      "tag_b", "tag_s", "tag_b", "tag_b", "refine_uniform",
@@ -51,6 +52,7 @@ JUDGED = {
     "C12": {"refine_uniform"} | TAG_OPS,
     "C13": {"refine_adaptive", "refine_uniform"} | TAG_OPS,
     "C18": {"restrict", "remove", "restrict_map", "join", "join_mixed",
+            "dirty_unused",
             "split", "extrude", "transform", "clean_unused",
             "clean_duplicate", "oriented", "trace"} | TAG_OPS,
 }
@@ -68,7 +70,9 @@ def _gen_op(rng, name):
             "dtype": rng.choice(["int32", "int64", "list"])}
     if name in ("restrict", "remove", "restrict_map"):
         return {"op": name, "frac": rng.choice([0.2, 0.5, 0.8, 1.0]),
-                "seed": sd, "how": rng.choice(["array", "array", "pred", "name"])}
+                "seed": sd, "how": rng.choice(["array", "array", "pred", "name"]),
+                "order": rng.choice(["sorted", "sorted", "reversed",
+                                     "shuffled"])}
     if name == "tag_s":
         return {"op": name, "name": rng.choice(["s", "sub", "s2", "omega"]),
                 "frac": rng.choice([0.1, 0.3, 0.5, 0.9]), "seed": sd,
@@ -90,7 +94,11 @@ def _gen_op(rng, name):
                                                 "disjoint", "fresh"]),
                 "seed": sd, "axis": rng.randrange(3)}
     if name == "join_mixed":
-        return {"op": name, "seed": sd}
+        return {"op": name, "seed": sd,
+                "continue_with_part": rng.random() < 0.5}
+    if name == "dirty_unused":
+        return {"op": name, "extra": rng.choice([1, 2, 4]), "seed": sd,
+                "trailing": rng.random() < 0.6}
     if name == "split":
         return {"op": name, "style": rng.choice([None, "x"])}
     if name == "extrude":
@@ -185,6 +193,10 @@ class State:
         self.bnd_meas = {}        # boundary name -> measure
         self.bnd_samples = {}     # boundary name -> (k, dim) sample points
         self.total = self.s.total()
+        # the mesh may legitimately carry vertices no cell uses (a part
+        # returned by `@`, or a mesh built that way on purpose) until
+        # remove_unused_nodes is called
+        self.allow_unused = False
 
 
 def _label_points(st, name):
@@ -435,6 +447,13 @@ def _step(st, o, prop, probes, faults, catcher, skm):
     # ------------------------------------------------------------ restrict
     if name in ("restrict", "remove", "restrict_map"):
         keep = _subset(s.nt, o["frac"], o["seed"])
+        if o.get("order") == "reversed":
+            keep = keep[::-1].copy()
+            _bump(probes, "restrict-unsorted-index-array")
+        elif o.get("order") == "shuffled":
+            keep = keep.copy()
+            random.Random(o["seed"] + 3).shuffle(keep)
+            _bump(probes, "restrict-unsorted-index-array")
         if name == "remove":
             rem = np.setdiff1d(np.arange(s.nt, dtype=np.int32), keep)
             if len(rem) == 0:
@@ -530,6 +549,8 @@ def _step(st, o, prop, probes, faults, catcher, skm):
         return "join:%d" % ns.nt
     if name == "join_mixed":
         return _join_mixed(st, o, skm, probes)
+    if name == "dirty_unused":
+        return _dirty_unused(st, o, probes)
 
     # ------------------------------------------------------------ split
     if name == "split":
@@ -661,7 +682,7 @@ def _check_refinement(st, ns, prop, probes, catcher, uniform_steps=None,
     d = G.DIM[s.kind]
     if ns.cls != s.cls:
         raise Bad("valid-class-changed", before=s.cls, after=ns.cls)
-    K.check_valid(ns)
+    K.check_valid(ns, allow_unused=st.allow_unused)
     if uniform_steps is not None:
         want = s.nt * (2 ** (d * uniform_steps))
         if ns.nt != want:
@@ -764,7 +785,7 @@ def _check_refinement(st, ns, prop, probes, catcher, uniform_steps=None,
 # ----------------------------------------------------------------- restrict
 def _check_restrict(st, ns, keep, ix, probes):
     s = st.s
-    K.check_valid(ns)
+    K.check_valid(ns)      # restrict renumbers: no unused vertex afterwards
     if ns.cls != s.cls:
         raise Bad("valid-class-changed", before=s.cls, after=ns.cls)
     kept_keys = s.cell_keys(keep.tolist())
@@ -854,7 +875,7 @@ def _check_transform(st, ns, f, det):
     if ns.p_all.shape != exp.shape or np.abs(ns.p_all - exp).max() > 1e-12 * sc:
         raise Bad("surgery-transform-coordinates-differ",
                   maxdiff=float(np.abs(ns.p_all - exp).max()))
-    K.check_valid(ns)
+    K.check_valid(ns, allow_unused=st.allow_unused)
     mo, mn = s.meas[0], ns.meas[0]
     if np.abs(mn - abs(det) * mo).max() > 1e-9 * max(mn.max(), 1e-300):
         raise Bad("surgery-transform-measure-differs")
@@ -906,7 +927,7 @@ def _join_partner(st, o, skm):
 
 def _check_join(st, so, ns, probes):
     s = st.s
-    K.check_valid(ns, dup_tol=1e-9)
+    K.check_valid(ns, dup_tol=1e-9, allow_unused=st.allow_unused)
     if ns.cls != s.cls:
         raise Bad("valid-class-changed", before=s.cls, after=ns.cls)
     if ns.nt != s.nt + so.nt:
@@ -970,13 +991,50 @@ def _join_mixed(st, o, skm, probes):
     _same_cells(s, a)
     _same_cells(so, b)
     _bump(probes, "join-mixed-types")
+    if o.get("continue_with_part"):
+        # go on with the first part: same cells, but its point array now
+        # also holds the partner's vertices, which no cell of it uses
+        st.m, st.s = out[0], a
+        st.allow_unused = True
+        st.labels, st.sub_meas, st.bnd_meas, st.bnd_samples = {}, {}, {}, {}
+        _bump(probes, "continued-with-part-carrying-unused-vertices")
     return "join_mixed"
+
+
+def _dirty_unused(st, o, probes):
+    """Replace the current mesh by an equal one whose point array also holds
+    vertices that no cell uses (as the parts returned by `@` do), some of
+    them behind the last used vertex."""
+    s, m = st.s, st.m
+    if s.order2:
+        _bump(probes, "op-skipped-not-applicable")
+        return "skipped"
+    g = np.random.Generator(np.random.PCG64(o["seed"]))
+    nv = s.p_all.shape[1]
+    extra = int(o["extra"])
+    pos = np.sort(g.integers(0, nv + 1, size=extra))
+    if o.get("trailing"):
+        pos[-1] = nv
+    newid = np.arange(nv) + np.searchsorted(pos, np.arange(nv), side="right")
+    P = np.zeros((s.dim, nv + extra))
+    P[:, newid] = s.p_all
+    rest = np.setdiff1d(np.arange(nv + extra), newid)
+    P[:, rest] = g.uniform(7, 8, size=(s.dim, extra))
+    r = type(m)(P, newid[np.array(m.t)].astype(np.int32))
+    ns = Snap(r)
+    K.check_valid(ns, allow_unused=True)
+    _same_cells(s, ns)
+    st.m, st.s = r, ns
+    st.allow_unused = True
+    st.labels, st.sub_meas, st.bnd_meas, st.bnd_samples = {}, {}, {}, {}
+    _bump(probes, "mesh-with-unused-vertices")
+    return "dirty_unused"
 
 
 # ----------------------------------------------------------------- split
 def _check_split(st, ns, per, probes):
     s = st.s
-    K.check_valid(ns)
+    K.check_valid(ns, allow_unused=st.allow_unused)
     if ns.nt != per * s.nt:
         raise Bad("surgery-split-cell-count", expected=per * s.nt, got=ns.nt)
     parent = K.parent_map(s, ns, probes)
@@ -1022,7 +1080,7 @@ def _check_extrude(st, ns, z, probes):
     want = {"line": "MeshQuad1", "tri": "MeshWedge1"}[s.kind]
     if ns.cls != want:
         raise Bad("valid-class-changed", before=s.cls, after=ns.cls)
-    K.check_valid(ns)
+    K.check_valid(ns, allow_unused=st.allow_unused)
     nl = len(z) - 1
     if ns.nt != s.nt * nl:
         raise Bad("surgery-extrude-cell-count", expected=s.nt * nl, got=ns.nt)
@@ -1058,6 +1116,7 @@ def _clean(st, o, skm, probes):
         K.check_valid(ns)
         _same_cells(s, ns)
         _bump(probes, "clean-unused")
+        st.allow_unused = False
         st.m, st.s = r, ns
         st.labels, st.sub_meas, st.bnd_meas, st.bnd_samples = {}, {}, {}, {}
         return "clean_unused"
@@ -1093,7 +1152,7 @@ def _clean(st, o, skm, probes):
     r = _call(lambda: dirty.remove_duplicate_nodes(), "remove_duplicate_nodes",
               s.cls)
     ns = Snap(r)
-    K.check_valid(ns)
+    K.check_valid(ns, allow_unused=st.allow_unused)
     _same_cells(s, ns)
     # carried tags designate the same geometric entities
     if ns.sub is not None and "keep" in ns.sub:
